@@ -821,6 +821,11 @@ func (vc *VC) frameFormula(cur, was Term, heap string, regs []region, wm Term) T
 			partial = append(partial, r)
 			continue
 		}
+		if r.isElem {
+			// the elements of a nil slice (backing array 0): no location at all
+			excl = append(excl, or(eq(r.ref, tZero), not(eq(Term{"fr", SInt}, r.ref))))
+			continue
+		}
 		excl = append(excl, not(eq(Term{"fr", SInt}, r.ref)))
 	}
 	conds := append([]Term{le(tZero, Term{"fr", SInt}), lt(Term{"fr", SInt}, wm)}, excl...)
